@@ -83,6 +83,10 @@ theorem inv_step (s : Reg) (op : Op) (h : InvR s) : InvR (step repaired s op).1 
     rcases removeLeak_cases s n with e | e <;> simp only [step, e]
     · exact h
     · exact invR_congr s _ rfl rfl rfl rfl rfl rfl rfl h
+  | assignDemand n p =>
+    rcases assignDemand_cases s n p with e | ⟨i, hi, hk, hp, e⟩ <;> simp only [step, e]
+    · exact h
+    · exact assignDemandR_invR s n p i hi hk hp h
   | setSourceNode n nd =>
     rcases setSourceNode_cases s n nd with e | ⟨si, hi, e⟩ <;> simp only [step, e]
     · exact h
@@ -207,6 +211,7 @@ theorem not_ok_unchanged (s : Reg) (op : Op) (h : (step repaired s op).2 ≠ .ok
   | addLeak n a b => rcases addLeak_cases s n a b with e | ⟨_, e⟩ <;> simp_all [step]
   | removeLeak n => rcases removeLeak_cases s n with e | e <;> simp_all [step]
   | setSourceNode n nd => rcases setSourceNode_cases s n nd with e | ⟨_, _, e⟩ <;> simp_all [step]
+  | assignDemand n p => rcases assignDemand_cases s n p with e | ⟨_, _, _, _, e⟩ <;> simp_all [step]
   | addTank n c => rcases addTank_cases s n c with e | ⟨_, e⟩ <;> simp_all [step]
   | addReservoir n p => rcases addReservoir_cases s n p with e | ⟨_, e⟩ <;> simp_all [step]
   | addPipe n a b => rcases addPipe_cases s n a b with e | ⟨_, _, _, e⟩ <;> simp_all [step]
@@ -509,6 +514,10 @@ theorem raw_set_demand_pattern_breaks_inv :
 theorem raw_set_source_pattern_breaks_inv :
     ¬ Inv (run repaired (setSourcePatternRaw (run repaired init [.addPattern 9, .addJunction 1 none false, .addSource 2 1 (some 9)]) 2 none).1
       [.removeSource 2]) := by
+  decide
+
+/-- the tree before fixes/C14-assign-demand-registers-pattern-usage: the pattern `assign_demand` creates is not protected -/
+theorem round4_cex_assign_demand : ¬ Inv (run round4 init [.addJunction 1 none false, .assignDemand 1 7]) := by
   decide
 
 /-! ### what the OrderedSet / OrderedDict theorems discharge
